@@ -49,8 +49,19 @@ def call_seg(rows, thr, mode, scale=1):
     k = len(thr)
     tr = tk.mk_track(list(range(n)))
     names = ["f%d" % j for j in range(k)]
+    # the numbers are carried by python floats, python ints, or numpy scalars (features filled from numpy arrays), by turns
+    carrier = (n + k + len(thr) + (0 if mode == "and" else 1) + sum(int(t) for t in thr)) % 4
     for j, nm in enumerate(names):
-        tr.createAnalyticalFeature(nm, [fval(r[j], scale) for r in rows])
+        vals = [fval(r[j], scale) for r in rows]
+        if carrier == 1:
+            import numpy as np
+            vals = [np.float32(v) for v in vals]                    # quarters and small integers are exact in single precision
+        elif carrier == 2 and scale == 1:
+            import numpy as np
+            vals = [np.int64(v) if v == v and abs(v) != float("inf") else v for v in vals]
+        elif carrier == 3 and scale == 1:
+            vals = [int(v) if v == v and abs(v) != float("inf") else v for v in vals]
+        tr.createAnalyticalFeature(nm, vals)
     e = {"ev": "seg", "rows": [list(r) for r in rows], "thr": list(thr), "mode": mode, "raised": False, "out": [], "pre": []}
     # history variant: the marker feature already exists (an earlier segmentation into the same name, or a column the user
     # created): the call must REPLACE its content - 1 exactly where the thresholds say so, 0 elsewhere
